@@ -25,7 +25,9 @@ Record lrune := LR { lr_r : N;            (* the rune stored in Regexp.Rune *)
 Inductive op0 := OAnyNL | OAny | OBeginLine | OEndLine | OBeginText | OEndText
                | OWordB | ONoWordB | OEmpty | ONoMatch.
 
-(* OpRepeat never survives Simplify (the harness refuses to serialise it) *)
+(* Rep = OpRepeat {mn,mx} (mx = None: unbounded).  Simplify expands it, so prefilterFunc never
+   sees it; minLen / extractLiterals have a branch for it, which the harness exercises on the
+   parsed, not yet simplified AST *)
 Inductive re :=
 | Lit (fold : bool) (rs : list lrune)
 | Class (fold : bool) (rngs : list (N * N))
@@ -35,7 +37,8 @@ Inductive re :=
 | Plus (fold : bool) (a : re)
 | Quest (fold : bool) (a : re)
 | Cat (fold : bool) (l : list re)
-| Alt (fold : bool) (l : list re).
+| Alt (fold : bool) (l : list re)
+| Rep (fold : bool) (mn : nat) (mx : option nat) (a : re).
 
 (* ---------- one-rune steps ---------- *)
 
@@ -101,6 +104,9 @@ Inductive M (w : bytes) : re -> nat -> nat -> Prop :=
 | M_quest1 f a i j : M w a i j -> M w (Quest f a) i j
 | M_cat f l i j : ML w l i j -> M w (Cat f l) i j
 | M_alt f l a i j : In a l -> M w a i j -> M w (Alt f l) i j
+| M_rep f mn mx a n i j :
+    ML w (repeat a n) i j -> (mn <= n)%nat -> (match mx with Some m => (n <= m)%nat | None => True end) ->
+    M w (Rep f mn mx a) i j
 with ML (w : bytes) : list re -> nat -> nat -> Prop :=
 | ML_nil i : ML w [] i i
 | ML_cons a l i k j : M w a i k -> ML w l k j -> ML w (a :: l) i j.
@@ -142,6 +148,12 @@ Fixpoint sat (step : list nat -> list nat) (fuel : nat) (frontier seen : list na
            end
   end.
 
+(* exactly n iterations; then at most k more *)
+Fixpoint iter_n (n : nat) (step : list nat -> list nat) (X : list nat) : list nat :=
+  match n with O => X | S n' => iter_n n' step (step X) end.
+Fixpoint upto_n (k : nat) (step : list nat -> list nat) (Y : list nat) : list nat :=
+  match k with O => Y | S k' => union Y (upto_n k' step (step Y)) end.
+
 Fixpoint endsS (r : re) (w : bytes) (X : list nat) {struct r} : list nat :=
   match r with
   | Lit f rs => map_opt (lit_end f rs w) X
@@ -155,6 +167,12 @@ Fixpoint endsS (r : re) (w : bytes) (X : list nat) {struct r} : list nat :=
                   match l with [] => X | a :: l' => go l' (endsS a w X) end) l X
   | Alt _ l => (fix go (l : list re) : list nat :=
                   match l with [] => [] | a :: l' => union (endsS a w X) (go l') end) l
+  | Rep _ mn mx a =>
+      let X0 := iter_n mn (endsS a w) X in
+      match mx with
+      | None => sat (endsS a w) (S (length w)) X0 X0
+      | Some m => if (m <? mn)%nat then [] else upto_n (m - mn) (endsS a w) X0
+      end
   end.
 
 Definition re_matchb (r : re) (w : bytes) : bool :=
@@ -188,6 +206,6 @@ Fixpoint wf_re (r : re) : bool :=
   match r with
   | Lit f rs => forallb (wf_lrune f) rs
   | Class _ _ | Op0 _ _ => true
-  | Cap _ a | Star _ a | Plus _ a | Quest _ a => wf_re a
+  | Cap _ a | Star _ a | Plus _ a | Quest _ a | Rep _ _ _ a => wf_re a
   | Cat _ l | Alt _ l => forallb wf_re l
   end.
